@@ -406,7 +406,7 @@ func GuessBase(path string) string {
 
 // Features classifies a scenario for the evidence histogram.
 type Features struct {
-	Paths, Collisions, ReservedCand, Dots, Anons, Hints, UnusedHints int
+	Paths, Collisions, ReservedCand, Dots, Anons, Hints, UnusedHints                    int
 	Prefix, Std, NonStd, Local, NearMiss, Cgo, HintLosesCollision, AnonThenRef, NullRef bool
 }
 
